@@ -46,6 +46,12 @@ def textFnStep : List String → Option String
   | ["t:cmpkey", p, d] => some <| with2 p d fun p d => showBuf p (T.convertToComparable d p)
   | ["t:pathexists", d, path] => some <| withDoc d fun d => withPath path fun jp => showRes showBool (T.pathExists d jp)
   | ["t:getpath", p, d, path] => some <| with2 p d fun p d => withPath path fun jp => showSel p (T.getByPathMode .mixed d jp p)
+  | ["fsexpect", d, want] => some <| withDoc d fun b =>
+      match T.fromSlice b with
+      | .ok v => if showJV v == want then "ok" else "MISMATCH text read as " ++ showJV v
+      | .err _ => "MISMATCH rejected"
+      | .panic _ => "panic"
+      | .fuel => "fuel"
   | ["t:fromslice", d] => some <| withDoc d fun b => showRes showJV (T.fromSlice b)
   | ["t:lazyvec", d] => some <| withDoc d fun b => showRes hexOfBytes (T.lazyToVec b)
   | _ => none
